@@ -69,6 +69,7 @@ EDGE_LINES = [
     b"a: \xff\nOK\n", b"a: \xc3\nOK\n", b"a: \xed\xa0\x80\nOK\n", b"a: \xf4\x90\x80\x80\nOK\n", b"a: \xf0\x9f\x8e\xb5\nOK\n", b"a: x\x00y\nOK\n", b"\x00\nOK\n",
     b"a\x00b: c\nOK\n", b"OK\r\n", b"OK \n", b" OK\n", b"ok\n", b"list_ok\nOK\n", b"list_OK \nOK\n", b"\n", b"\nOK\n", b"a:b\nOK\n", b"a : b\nOK\n", b": b\nOK\n", b"a1: b\nOK\n",
     b"a-b_C: d\nOK\n", b"\xc3\xa9: d\nOK\n", b"binary: 3\nabcd\nOK\n", b"binary: 3\nab\nOK\n", b"binary: -1\nOK\n", b"binary: +1\nOK\n", b"binary: 1 \nOK\n", b"binary:3\nabc\nOK\n",
+    b"list_OK\na: b\nlist_OK\nACK [184467440737095516015@0] {a_b} ", b"ACK [99999999999999999999999", b"ACK [5@99999999999999999999999", b"ACK [5@0] {a_b} partial",
     b"OK\nOK\nOK\n", b"list_OK\nlist_OK\nOK\n", b"list_OK\nOK\n", b"a: b\nACK [5@0] {} x\n", b"OK", b"list_OK", b"ACK [5@0] {} x", b"a: b", b"binary: 3", b"binary: 3\n", b"binary: 3\nabc",
 ]
 
